@@ -351,7 +351,8 @@ def replay_file(pid, path):
 
 def get_counterexample(pid, harness, mem_gb, harness_timeout_s):
     """Re-run one failing harness with concrete playback; write the replay file."""
-    r = run_kani([harness], 1, harness_timeout_s, mem_gb, exact=True, playback=True,
+    # trace generation is slower than the plain verdict: allow three times the harness timeout
+    r = run_kani([harness], 1, max(3 * harness_timeout_s, 900), mem_gb, exact=True, playback=True,
                  logname=f"{pid}-playback-{sanitize(harness)}.log", cbmc_args=props.PROPS[pid].get("cbmc_args"))
     hr = r["results"].get(harness)
     if not hr or "playback" not in hr:
